@@ -71,7 +71,16 @@ ApplyRegions == \E S \in SUBSET (1..(IF stage = "f" THEN Cardinality(Occ(f.t)) E
     /\ op' = "regions" /\ h' = f.t /\ sched' = SchedOf(Cardinality(Occ(f.t)), S)
     /\ stage' = "done" /\ UNCHANGED <<f, g, aff>>
 
-Next == PickF \/ PickG \/ Apply \/ ApplyAff \/ ApplyRegions
+\* C11: LP faults as environment actions: any set of at most NG faulty LP calls (position x kind) during the elimination
+SortedPlan(plan) == LET ks == SortedSeq({pr[1] : pr \in plan}) IN [j \in 1..Len(ks) |-> <<ks[j], FaultAt(plan, ks[j])>>]
+FaultKinds == {"Error", "Unbounded", "Perturbed", "FarOff"}
+ApplyFault == \E plan \in SUBSET ((0..(IF stage = "f" /\ MODE = "fault" THEN LpCalls(f.t) - 1 ELSE -1)) \X FaultKinds) :
+    /\ stage = "f" /\ MODE = "fault"
+    /\ Cardinality(plan) <= NG /\ Cardinality({pr[1] : pr \in plan}) = Cardinality(plan)
+    /\ op' = "eliminate" /\ h' = EliminateF(f.t, plan) /\ sched' = SortedPlan(plan)
+    /\ stage' = "done" /\ UNCHANGED <<f, g, aff>>
+
+Next == PickF \/ PickG \/ Apply \/ ApplyAff \/ ApplyRegions \/ ApplyFault
 Spec == Init /\ [][Next]_vars
 
 \* ------------------------------------------------------------------ properties at design level
@@ -109,6 +118,11 @@ LawEffective == (stage = "done" /\ MODE \in {"prune", "pruneg", "prunea"} /\ op 
     /\ \A i \in Occ(h) \ {h.root} : Feas(ClosedRegion(h, i), D)
     /\ \A i \in Occ(h) \ {h.root} : ~h.nodes[i].leaf => NumChildren(h.nodes[i]) # 1
     /\ ObsTree(Eliminate(h)) = ObsTree(h)
+\* C11: under any fault plan the function is unchanged, caches stay sound, the tree is well-formed and only less is pruned
+LawFault == (stage = "done" /\ MODE = "fault") =>
+    /\ PwlEqUpToThin(PH0, PF0, D)
+    /\ CacheSound(h)
+    /\ Occ(Eliminate(f.t)) \subseteq Occ(h)
 \* C09: the closed path polytope reported for a node (what PolyhedraGen builds) contains the node's routing region, and its
 \* interior is routed through the node; distinct terminals have disjoint interiors
 LawRegions == (stage = "done" /\ MODE = "regions") =>
@@ -136,7 +150,18 @@ HistorySteps ==
       [] op' = "elim_sub" -> <<Step("eliminate"), StepG("sub")>>
 Emit ==
     (EMIT /\ stage' = "done") =>
-        IF MODE \in {"prune", "pruneg", "prunea"}
+        IF MODE = "fault"
+        THEN (sched' = <<>>) =>       \* one fault-sweep script per tree: the harness enumerates the plans over the real run's LP calls
+             /\ PrintT("SCRIPT " \o ToJson([fam |-> "afftree", k |-> K, q |-> 1, mode |-> "history", lhs |-> ScriptOf(f'.abs, K, f'.lay),
+                                          steps |-> <<Step("eliminate")>>, faults |-> <<>>, faultsweep |-> NG]))
+             \* pruned composition with a ReLU on the first output component under the same fault sweeps (harness side only)
+             /\ PrintT("SCRIPT " \o ToJson([fam |-> "afftree", k |-> K, q |-> 1, mode |-> "history", lhs |-> ScriptOf(f'.abs, K, f'.lay),
+                                          steps |-> <<Step("eliminate"),
+                                                      [op |-> "compose_prune", aff |-> [m |-> <<>>, b |-> <<>>, q |-> 1],
+                                                       rhs |-> ScriptOf(Dec(P(<<1, 0>>, 0), <<Leaf(Aff(<<<<1, 0>>, <<0, 1>>>>, <<0, 0>>)),
+                                                                                               Leaf(Aff(<<<<0, 0>>, <<0, 1>>>>, <<0, 0>>))>>), K, "dfs")]>>,
+                                          faults |-> <<>>, faultsweep |-> NG]))
+        ELSE IF MODE \in {"prune", "pruneg", "prunea"}
         THEN PrintT("SCRIPT " \o ToJson([fam |-> "afftree", k |-> K, q |-> 1, mode |-> "history", lhs |-> ScriptOf(f'.abs, K, f'.lay),
                                           steps |-> HistorySteps, faults |-> <<>>]))
         ELSE
